@@ -716,7 +716,14 @@ fn main() {
                 for (k, base) in picks.iter().enumerate() {
                     let tok = format!("mal{}x{}q{}", cfg_id.len(), k, base.idx);
                     let b64 = { use base64::Engine; base64::engine::general_purpose::STANDARD.encode(format!("u{}:{}pw9Z", tok, tok)) };
+                    let b64b = { use base64::Engine; base64::engine::general_purpose::STANDARD.encode(format!("v{}:{}pw7Y", tok, tok)) };
+                    let b64c = { use base64::Engine; base64::engine::general_purpose::STANDARD.encode(format!("w{}:{}pw5X", tok, tok)) };
+                    logcap::plant("proxy-authorization[no-scheme]", &b64b, &[&format!("{}pw7Y", tok)]);
+                    logcap::plant("proxy-authorization[tab]", &b64c, &[&format!("{}pw5X", tok)]);
                     let fields: Vec<(String, String)> = vec![
+                        // credentials without a scheme, and with something other than a space behind the scheme
+                        ("proxy-authorization".into(), b64b.clone()),
+                        ("proxy-authorization".into(), format!("Basic\t{}", b64c)),
                         ("proxy-authorization".into(), format!("Basic {}\n", b64)),
                         ("authorization".into(), format!("Bearer {}az\u{1}tail", tok)),
                         ("cookie".into(), format!("session={}ck\u{7f}; a=1", tok)),
